@@ -393,6 +393,21 @@ class SwapPureAnd(ast.NodeTransformer):
         return node
 
 
+class ReorderMethods(ast.NodeTransformer):
+    """the methods of every class in reverse order (class attributes and the docstring stay in front)"""
+
+    def visit_ClassDef(self, node):
+        self.generic_visit(node)
+        funcs = [b for b in node.body if isinstance(b, ast.FunctionDef)]
+        # a property and its setter must keep their relative order
+        names = [f.name for f in funcs]
+        if len(set(names)) != len(names):
+            return node
+        rest = [b for b in node.body if not isinstance(b, ast.FunctionDef)]
+        node.body = rest + funcs[::-1]
+        return node
+
+
 def _apply(sources, transformer_factory):
     out = dict(sources)
     for f in PY_FILES:
@@ -442,6 +457,7 @@ def benign_variants(sources):
     v.append(("if/else assignments -> conditional expressions", _apply(sources, IfToTernary)))
     v.append(("if cmp: return True / return False -> return cmp", _apply(sources, ReturnComparison)))
     v.append(("super(Class, self) -> super()", _apply(sources, SuperNoArgs)))
+    v.append(("methods of each class reordered", _apply(sources, ReorderMethods)))
     v.append(("De Morgan on if / while tests", _apply(sources, DeMorgan)))
     v.append(("pure and/or operands swapped", _apply(sources, SwapPureAnd)))
     v.append(("plain local assignments annotated", _apply(sources, AnnotateLocals)))
